@@ -526,6 +526,9 @@ where
             }
         };
 
+        // remember the reported locale for localized messages
+        self.client_locale = Some(client_info.locale.clone());
+
         // track client metrics
         metrics::client_locale::inc(client_info.locale.clone());
         metrics::client_view_distance::record(
